@@ -546,6 +546,227 @@ func TestC14(t *testing.T) {
 			c.Event("channels_checked", 1)
 		})
 	})
+	// a handler that waits for the CloseNotify channel (what the channel is for: abandon the work
+	// when the peer is gone) while the connection terminates: the channel is closed although the
+	// handler has not returned
+	handlerWaits := func(c *ev.Case, tm byte, earlier bool) {
+		variant := "handler-waits-for-closenotify"
+		if !earlier {
+			variant = "handler-waits-same-invocation"
+		}
+		c.Class("handler-waits/term=%c/requested-in-an-earlier-handler=%v", tm, earlier)
+		run(c, string(tm), func() {
+			sig := func(op string) ev.Sig {
+				return ev.Sig{"op": op, "termination": string(tm), "variant": variant}
+			}
+			var ch <-chan struct{}
+			var woke, entered atomic.Bool
+			giveUp := make(chan struct{})
+			defer func() {
+				close(giveUp) // a handler that was never told must not outlive the scenario
+				synctest.Wait()
+			}()
+			hf := diam.HandlerFunc(func(dc diam.Conn, m *diam.Message) {
+				switch m.Header.HopByHopID {
+				case 1:
+					if earlier {
+						ch = dc.(diam.CloseNotifier).CloseNotify()
+					}
+				case 2:
+					if !earlier {
+						ch = dc.(diam.CloseNotifier).CloseNotify()
+					}
+					entered.Store(true)
+					select {
+					case <-ch:
+						woke.Store(true)
+					case <-giveUp:
+					}
+				}
+			})
+			mc := memnet.NewConn()
+			conn, err := diam.NewConn(mc, "a", hf, ctx.Parser)
+			if err != nil {
+				c.Fail(sig("setup"), nil, nil, "NewConn: %v", err)
+				return
+			}
+			mc.Feed(seqMsg(1, 12))
+			synctest.Wait()
+			mc.Feed(seqMsg(2, 100))
+			synctest.Wait()
+			if !entered.Load() || woke.Load() {
+				c.Fail(sig("closed-before-termination"), nil, nil, "handler of message 2 entered=%v, woken=%v while the connection is up", entered.Load(), woke.Load())
+				return
+			}
+			switch tm {
+			case 'E':
+				mc.FeedEOF()
+			case 'R':
+				mc.FeedErr(errors.New("memnet: connection reset by peer"))
+			case 'L':
+				conn.Close()
+			}
+			synctest.Wait()
+			if !woke.Load() {
+				c.Fail(sig("not-closed-after-termination"), nil, nil, "the connection terminated (%c) while a handler waits for the CloseNotify channel (requested in an earlier handler: %v): the channel is not closed at quiescence, the handler never learns that the peer is gone", tm, earlier)
+				return
+			}
+			if mc.CloseCount() == 0 {
+				c.Fail(sig("transport-not-closed"), nil, nil, "the transport was not closed after the termination")
+				return
+			}
+			c.Event("handler_waits_runs", 1)
+			c.Event("channels_checked", 1)
+		})
+	}
+	rec.Suite("handler-waits-for-closenotify", 3*rec.N(2, 60), func(c *ev.Case) {
+		handlerWaits(c, "ERL"[c.I%3], true)
+	})
+	// the same with the channel requested by the very handler invocation that then waits for it
+	// (D25, repaired in /repo 195ae7b: the copy routine that notices the end of the connection was
+	// only started by the reader's next Read, i.e. after this handler had returned)
+	rec.Suite("handler-waits-same-invocation", 3*rec.N(1, 20), func(c *ev.Case) {
+		handlerWaits(c, "ERL"[c.I%3], false)
+	})
+	// CloseNotify armed on a connection accepted by a Server with a ReadTimeout whose handlers run
+	// longer than that timeout; the peer is never silent for a whole ReadTimeout while the server
+	// waits for it.  Requesting the channel must not lose messages nor end the connection
+	// (D26, repaired in /repo 1dba6ae: the copy routine kept reading under the deadline that was
+	// set for the previous message and reported a time-out while the handler ran)
+	rec.Suite("closenotify-with-read-timeout", 2*rec.N(1, 20), func(c *ev.Case) {
+		rt := []time.Duration{100 * time.Millisecond, 2 * time.Second}[c.I%2]
+		c.Class("closenotify-with-read-timeout/%v", rt)
+		run(c, "none", func() {
+			sig := func(op string) ev.Sig {
+				return ev.Sig{"op": op, "termination": "none", "variant": "closenotify-with-read-timeout"}
+			}
+			var mu sync.Mutex
+			var seen []uint32
+			var ch <-chan struct{}
+			hf := diam.HandlerFunc(func(dc diam.Conn, m *diam.Message) {
+				mu.Lock()
+				seen = append(seen, m.Header.HopByHopID)
+				if ch == nil {
+					ch = dc.(diam.CloseNotifier).CloseNotify()
+				}
+				mu.Unlock()
+				time.Sleep(3 * rt)
+			})
+			srv := &diam.Server{Handler: hf, Dict: ctx.Parser, ReadTimeout: rt}
+			ln := memnet.NewListener()
+			go srv.Serve(ln)
+			mc := memnet.NewConn()
+			ln.Offer(mc)
+			defer func() {
+				mc.FeedEOF()
+				ln.Close()
+				time.Sleep(4 * rt)
+				synctest.Wait()
+			}()
+			const n = 3
+			for s := uint32(1); s <= n; s++ {
+				mc.Feed(seqMsg(s, 12))
+				time.Sleep(3*rt + rt/2) // the handler has returned half a ReadTimeout ago
+				synctest.Wait()
+				mu.Lock()
+				got, c0 := len(seen), ch
+				mu.Unlock()
+				gone := false
+				select {
+				case <-c0:
+					gone = true
+				default:
+				}
+				if got != int(s) || gone || mc.CloseCount() != 0 {
+					c.Fail(sig("lost-after-closenotify"), nil, nil, "ReadTimeout %v, handlers take %v, CloseNotify requested by the first handler, message k+1 sent %v after the handler of message k returned: after message %d, %d handler invocations, CloseNotify channel closed=%v, transport closed %d time(s) - the peer was never silent for a whole ReadTimeout while the server waited for it",
+						rt, 3*rt, rt/2, s, got, gone, mc.CloseCount())
+					return
+				}
+			}
+			c.Event("closenotify_read_timeout_runs", 1)
+			c.Event("channels_checked", 1)
+		})
+	})
+	// local Close while a Write of another goroutine is blocked in the transport (the peer has
+	// stopped reading): Close terminates the connection all the same
+	rec.Suite("local-close-while-write-blocked", 2*2*rec.N(2, 60), func(c *ev.Case) {
+		before := c.I%2 == 0 // CloseNotify requested before / after the write blocks
+		partial := (c.I/2)%2 == 0
+		c.Class("close-while-write-blocked/requested-before=%v/partial=%v", before, partial)
+		leak := runBubbleWD(t, rec, c, 15*time.Second, func() {
+			sig := func(op string) ev.Sig {
+				return ev.Sig{"op": op, "termination": "L", "variant": "local-close-while-write-blocked"}
+			}
+			mc := memnet.NewConn()
+			mc.Script = func(seq int, b []byte) memnet.Outcome {
+				o := memnet.Outcome{Accept: -1, StallAt: -1, UntilClosed: true}
+				if partial {
+					o.StallAt = len(b) / 2
+				}
+				return o
+			}
+			conn, err := diam.NewConn(mc, "a", diam.HandlerFunc(func(diam.Conn, *diam.Message) {}), ctx.Parser)
+			if err != nil {
+				c.Fail(sig("setup"), nil, nil, "NewConn: %v", err)
+				return
+			}
+			var ch <-chan struct{}
+			if before {
+				ch = conn.(diam.CloseNotifier).CloseNotify()
+			}
+			var werr error
+			wdone := make(chan struct{})
+			go func() {
+				m, _ := diam.ReadMessage(bytes.NewReader(seqMsg(9, 1000)), ctx.Parser)
+				_, werr = m.WriteTo(conn)
+				close(wdone)
+			}()
+			synctest.Wait()
+			if !before {
+				ch = conn.(diam.CloseNotifier).CloseNotify()
+				synctest.Wait()
+			}
+			select {
+			case <-wdone:
+				c.Fail(sig("setup"), nil, nil, "the scripted write did not block")
+				return
+			default:
+			}
+			closed := make(chan struct{})
+			go func() {
+				conn.Close()
+				close(closed)
+			}()
+			synctest.Wait()
+			select {
+			case <-closed:
+			default:
+				c.Fail(sig("close-blocked"), nil, nil, "Close has not returned at quiescence while a Write of another goroutine is blocked in the transport")
+				return
+			}
+			select {
+			case <-ch:
+			default:
+				c.Fail(sig("not-closed-after-termination"), nil, nil, "local Close while a Write is blocked in the transport: the CloseNotify channel is not closed at quiescence")
+				return
+			}
+			select {
+			case <-wdone:
+				if werr == nil {
+					c.Fail(sig("write-after-close"), nil, nil, "the blocked write reported success although the connection was closed under it")
+					return
+				}
+			default:
+				c.Fail(sig("goroutine-left"), nil, nil, "the blocked Write has not returned after Close")
+				return
+			}
+			c.Event("close_while_write_blocked_runs", 1)
+			c.Event("channels_checked", 1)
+		})
+		if leak != "" && !c.Failed() {
+			c.Fail(ev.Sig{"op": "goroutine-left", "termination": "L", "how": "bubble-end", "variant": "local-close-while-write-blocked"}, nil, nil, "goroutines of the scenario are still blocked after everything else ended: %s", leak)
+		}
+	})
 	// a TLS client connection whose handshake fails (DialTLS hands out the Conn before the
 	// handshake has run): CloseNotify requested before, during or after the failure
 	rec.Suite("tls-client-handshake-failure", 9*rec.N(2, 40), func(c *ev.Case) {
